@@ -258,6 +258,7 @@ func (c *Ctx) loadLV(st *State, lv *LVal) string {
 	case lvElem:
 		k, s := c.elemHeap(c.sortOf(lv.base))
 		h := c.heapGet(st, k, s)
+		c.seeElemRead(k, lv.ref, lv.idx)
 		return c.applyPath("(select (select "+h+" "+lv.ref+") "+lv.idx+")", lv.path)
 	case lvHeap:
 		sn, su := c.structInfo(lv.base)
@@ -285,6 +286,37 @@ func (c *Ctx) loadLV(st *State, lv *LVal) string {
 		return c.applyPath("(select "+h+" "+lv.ref+")", lv.path)
 	}
 	panic("loadLV")
+}
+
+// seeElemRead: the code reads element idx of array ref in an element heap: the frame relations assumed
+// so far (callee frames, copy) are instantiated there as quantifier-free facts.
+func (c *Ctx) seeElemRead(key, ref, idx string) {
+	if c.rawFact == nil || len(c.presRels) == 0 || hasBoundTok(ref) || hasBoundTok(idx) {
+		return
+	}
+	if c.presSeen == nil {
+		c.presSeen = map[string]bool{}
+	}
+	for i, pr := range c.presRels {
+		if pr.key != key {
+			continue
+		}
+		k := fmt.Sprintf("%d|%s|%s", i, ref, idx)
+		if c.presSeen[k] {
+			continue
+		}
+		c.presSeen[k] = true
+		bound := "true"
+		if pr.alloc != "" {
+			bound = "(<= " + ref + " " + pr.alloc + ")"
+		}
+		if pr.except != "" {
+			exc := replaceTok(replaceTok(pr.except, "r!", ref), "j!", idx)
+			c.rawFact(implies(pr.reach, fmt.Sprintf("(=> (and %[2]s (not %[3]s)) (= (select (select %[4]s %[1]s) %[5]s) (select (select %[6]s %[1]s) %[5]s)))", ref, bound, exc, pr.cur, idx, pr.old)))
+		} else {
+			c.rawFact(implies(pr.reach, fmt.Sprintf("(=> %s (= (select %s %s) (select %s %s)))", bound, pr.cur, ref, pr.old, ref)))
+		}
+	}
 }
 
 // heapKeysOf returns the heap keys a store through lv would write ("" for cells).
@@ -325,6 +357,7 @@ type Env struct {
 	specFn string // name of spec function being defined (recursion)
 	oldVars map[string]*SV // variable bindings to use inside old()
 	unfoldDepth int
+	loopOld *State // loop invariants: the state in which the loop was entered (loopold, keptSince, ...)
 	localsFirst bool // loop invariants: a name denotes the current value of the variable (parameters are mutable)
 }
 
@@ -989,6 +1022,32 @@ func (e *Env) call(x *ECall) *SV {
 		ne.st = e.old
 		ne.inOld = true
 		return ne.eval(x.Args[0])
+	case "loopold":
+		// loopold(e): value of e when the loop was entered (loop invariants only)
+		if e.loopOld == nil {
+			specFail("loopold() is only available in loop invariants")
+		}
+		ne := *e
+		ne.st = e.loopOld
+		return ne.eval(x.Args[0])
+	case "freshSince":
+		// freshSince(p): p was allocated after the loop was entered
+		if e.loopOld == nil {
+			specFail("freshSince() is only available in loop invariants")
+		}
+		return e.boolSV("(> " + arg(0).S + " " + e.loopOld.alloc + ")")
+	case "keptSince", "keptExceptSince":
+		// like preserved / keptExcept, relative to the state in which the loop was entered
+		if e.loopOld == nil {
+			specFail("%s() is only available in loop invariants", x.Fun)
+		}
+		ne := *e
+		ne.old = e.loopOld
+		fun := "preserved"
+		if x.Fun == "keptExceptSince" {
+			fun = "keptExcept"
+		}
+		return ne.call(&ECall{Fun: fun, Args: x.Args})
 	case "len":
 		v := arg(0)
 		switch u := v.T.Underlying().(type) {
@@ -1155,7 +1214,7 @@ func (e *Env) call(x *ECall) *SV {
 			exc := fmt.Sprintf("(and (= r! (s-ref %[1]s)) (<= (+ (s-off %[1]s) %[2]s) j!) (< j! (+ (s-off %[1]s) %[3]s)))", b.S, arg(2).S, arg(3).S)
 			parts = append(parts, fmt.Sprintf("(forall ((r! Int) (j! Int)) (! (=> (and (<= r! %[4]s) (not %[1]s)) (= (select (select %[2]s r!) j!) (select (select %[3]s r!) j!))) :pattern ((select (select %[2]s r!) j!))))", exc, cur, old, e.old.alloc))
 			if c.assuming != "" && cur != old {
-				c.presRels = append(c.presRels, presRel{cur: cur, old: old, alloc: e.old.alloc, reach: c.assuming, except: exc})
+				c.presRels = append(c.presRels, presRel{key: k, cur: cur, old: old, alloc: e.old.alloc, reach: c.assuming, except: exc})
 			}
 		}
 		return e.boolSV(and(parts...))
@@ -1195,7 +1254,7 @@ func (e *Env) call(x *ECall) *SV {
 			c.uses["quant"] = true
 			parts = append(parts, fmt.Sprintf("(forall ((r! Int)) (! (=> (<= r! %s) (= (select %s r!) (select %s r!))) :pattern ((select %s r!))))", e.old.alloc, cur, old, cur))
 			if c.assuming != "" && cur != old {
-				c.presRels = append(c.presRels, presRel{cur: cur, old: old, alloc: e.old.alloc, reach: c.assuming})
+				c.presRels = append(c.presRels, presRel{key: k, cur: cur, old: old, alloc: e.old.alloc, reach: c.assuming})
 			}
 		}
 		return e.boolSV(and(parts...))
